@@ -47,7 +47,7 @@ func (f *Func) Root() *Func {
 
 // Prog is the loaded, type-checked program.
 type Prog struct {
-	synthIdent map[*ast.Ident]bool // identifiers created by the normaliser (no source text of their own)
+	synthIdent       map[*ast.Ident]bool // identifiers created by the normaliser (no source text of their own)
 	verbatimVisiting map[types.Object]bool
 	Fset             *token.FileSet
 	Pkgs             []*packages.Package // root packages (non-test)
